@@ -135,6 +135,14 @@ class MayThrow:
                         iv = g.vertex_of.get(cid)
                         if {x, y} == {b, want} and iv is not None and cv is not None and g.dominates(iv, cv):
                             return True
+                    # ... or the equality was established by a validating helper (throwing, or reporting a reason that is thrown)
+                    try:
+                        import indexsites as _IS
+                        for l_, op_, r_, _x in _IS.facts_at(f, R, n['id']):
+                            if op_ == '==' and {l_, r_} == {b, want}:
+                                return True
+                    except Exception:
+                        pass
             import forall
             if forall.covered(f, n['id'], obj, cont, a):
                 return True
